@@ -68,49 +68,64 @@ theorem plan_never_panics : plan t a json outputFile ≠ .panic ∧
   · have hc : Gen.featureValues.contains a.features = false := by simpa using hv
     simp [hc, hv]
 
-/-- **C20.opt.4** what the library is really called with: `evil_json` and `recover_function_args` are
-    the command line's own flags, the statistics reporter is subscribed exactly when the interactive
-    UI is on — and NOTHING of the constructor selected by `--features` survives: the two fields are
-    overwritten unconditionally (`options.recover_function_args = cli.recover_function_args;`). -/
-theorem effective_options (p : Plan) (h : plan t a json outputFile = .ok p) :
-    p.options = ⟨a.evilJson, a.recoverFunctionArgs, p.interactive⟩ ∧
+/-- **C20.opt.4** `features_table_effective` (finding D4, repaired by c4013c2 `|=`): each accepted
+    `--features` value yields exactly the options of the library constructor of the same name, and the
+    command line's own flags only ADD to them: `evil_json` is the `--evil-json` path (every constructor
+    leaves it `None`), `recover_function_args` is the constructor's value OR `--recover-function-args`,
+    the statistics reporter is subscribed exactly when the interactive UI is on. -/
+theorem features_table_effective (v c : String) (o : ProcOptions) (p : Plan)
+    (harm : Gen.featureArms.find? (fun q => q.1 == v) = some (v, c)) (hc : ctor c = some o)
+    (hv : v ∈ Gen.featureValues)
+    (h : plan t { a with features := v } json outputFile = .ok p) :
+    p.options = { o with evilJson := a.evilJson,
+                         recoverFunctionArgs := o.recoverFunctionArgs || a.recoverFunctionArgs,
+                         statReporter := p.interactive } ∧
+    o.evilJson = none ∧
     p.localDebuginfo = a.useLocalDebuginfo ∧
     p.interactive = (!json && !a.noInteractive && !outputFile) := by
-  have hv : a.features ∈ Gen.featureValues := by
-    by_cases hv : a.features ∈ Gen.featureValues
-    · exact hv
-    · rw [((plan_never_panics t a json outputFile).2).mpr hv] at h
-      cases h
-  have hc : Gen.featureValues.contains a.features = true := by simpa using hv
-  obtain ⟨c, o, h1, h2⟩ := features_values_have_arms a.features hv
+  have hcont : Gen.featureValues.contains v = true := by simpa using hv
   unfold plan at h
-  simp only [hc, Bool.not_true, Bool.false_eq_true, if_false, h1, h2] at h
+  simp only [hcont, Bool.not_true, Bool.false_eq_true, if_false, harm, hc] at h
   cases h
-  refine ⟨?_, rfl, ?_⟩
+  have hev : o.evilJson = none := by
+    unfold ctor at hc
+    split at hc <;> first | (cases hc; rfl) | cases hc
+  refine ⟨?_, hev, rfl, ?_⟩
   · simp [overrideKind, Gen.overrides, applyOverride]
   · simp [Gen.interactiveRule, interactiveAtom, Bool.and_assoc]
 
-/-- **C20.opt.5 (finding D4)** `--features` has no effect at all on what the tool does: two command
-    lines that differ only in an accepted `--features` value get the same plan. In particular
-    `--features unstable-all` does NOT enable `--recover-function-args`, which the documentation of the
-    flag promises and `ProcessorOptions::unstable_all()` does (`features_table`). -/
-theorem features_flag_has_no_effect (v1 v2 : String) (h1 : v1 ∈ Gen.featureValues) (h2 : v2 ∈ Gen.featureValues) :
-    plan t { a with features := v1 } json outputFile = plan t { a with features := v2 } json outputFile := by
-  have key : ∀ v, v ∈ Gen.featureValues → plan t { a with features := v } json outputFile
-      = plan t { a with features := "stable-basic" } json outputFile := by
-    intro v hv
-    simp only [Gen.featureValues, List.mem_cons, List.mem_nil_iff, or_false] at hv
-    rcases hv with rfl | rfl | rfl <;> rfl
-  rw [key v1 h1, key v2 h2]
+/-- **C20.opt.5** the table in the tool, value by value: `unstable-all` turns argument recovery on
+    whatever the flag says; the two `stable-*` values leave it to `--recover-function-args`. -/
+theorem features_effective_values (p : Plan) :
+    (plan t { a with features := "unstable-all" } json outputFile = .ok p → p.options.recoverFunctionArgs = true) ∧
+    (plan t { a with features := "stable-basic" } json outputFile = .ok p →
+      p.options.recoverFunctionArgs = a.recoverFunctionArgs) ∧
+    (plan t { a with features := "stable-all" } json outputFile = .ok p →
+      p.options.recoverFunctionArgs = a.recoverFunctionArgs) := by
+  refine ⟨?_, ?_, ?_⟩
+  · intro h
+    rw [(features_table_effective t a json outputFile "unstable-all" "unstable_all" ⟨none, true, false⟩ p
+      (by decide) (by decide) (by decide) h).1]
+    simp
+  · intro h
+    rw [(features_table_effective t a json outputFile "stable-basic" "stable_basic" ⟨none, false, false⟩ p
+      (by decide) (by decide) (by decide) h).1]
+    simp
+  · intro h
+    rw [(features_table_effective t a json outputFile "stable-all" "stable_all" ⟨none, false, false⟩ p
+      (by decide) (by decide) (by decide) h).1]
+    simp
 
-theorem unstable_all_does_not_enable_recover (p : Plan)
-    (h : plan t { a with features := "unstable-all", recoverFunctionArgs := false } json outputFile = .ok p) :
-    p.options.recoverFunctionArgs = false ∧
-    (∀ o, ctor "unstable_all" = some o → o.recoverFunctionArgs = true) := by
-  refine ⟨?_, ?_⟩
-  · rw [(effective_options t _ json outputFile p h).1]
-  · intro o ho
-    rw [ctor_values.2.2] at ho; cases ho; rfl
+/-- **C20.opt.5b** the debuginfo rule (finding D6, repaired by fb88910): every CPU main.rs lets through
+    to `DebugInfoSymbolProvider::new` is one the provider's `match system_info.cpu` handles — its
+    `_ => unimplemented!()` arm is unreachable from the tool. (Both lists are translated from the sources.) -/
+theorem local_debuginfo_never_panics (cpu : String) (h : localDebuginfoAllowed cpu = true) :
+    cpu ∈ Gen.debuginfoSupportedCpus := by
+  unfold localDebuginfoAllowed at h
+  have hrule : Gen.localDebuginfoCpus = some ["X86_64", "Arm64"] := by decide
+  rw [hrule] at h
+  simp only [List.contains_cons, List.contains_nil, Bool.or_false, Bool.or_eq_true, beq_iff_eq] at h
+  rcases h with rfl | rfl <;> decide
 
 /-- **C20.opt.6** supplier selection: the symbol paths are the `--symbols-path` values followed by the
     positional ones; a non-empty `--symbols-url` list selects the HTTP supplier with ALL those paths,
@@ -162,13 +177,17 @@ def sampleArgs : ProcArgs :=
     symbolsPath := ["a"], symbolsPathLegacy := ["b", "c"], noInteractive := false }
 
 example : plan "/tmp" sampleArgs false false =
-    .ok ⟨⟨some "e.json", false, true⟩, false, .http ["a", "b", "c"] ["http://s/"] "/tmp/rust-minidump-cache" "/t" 7, true⟩ := by
+    .ok ⟨⟨some "e.json", true, true⟩, false, .http ["a", "b", "c"] ["http://s/"] "/tmp/rust-minidump-cache" "/t" 7, true⟩ := by
   decide
 example : plan "/tmp" { sampleArgs with symbolsUrl := [] } true false =
-    .ok ⟨⟨some "e.json", false, false⟩, false, .simple ["a", "b", "c"], false⟩ := by decide
+    .ok ⟨⟨some "e.json", true, false⟩, false, .simple ["a", "b", "c"], false⟩ := by decide
 example : plan "/tmp" { sampleArgs with symbolsUrl := [], symbolsPath := [], symbolsPathLegacy := [] } false true =
-    .ok ⟨⟨some "e.json", false, false⟩, false, .none, false⟩ := by decide
+    .ok ⟨⟨some "e.json", true, false⟩, false, .none, false⟩ := by decide
 example : plan "/tmp" { sampleArgs with features := "bogus" } false false = .usage := by decide
+example : plan "/tmp" { sampleArgs with features := "stable-all", symbolsUrl := [], symbolsPath := [], symbolsPathLegacy := [] } true true =
+    .ok ⟨⟨some "e.json", false, false⟩, false, .none, false⟩ := by decide
+example : localDebuginfoAllowed "X86_64" = true ∧ localDebuginfoAllowed "X86" = false ∧
+    localUnsupportedOf true "X86" = true ∧ localUnsupportedOf false "X86" = false := by decide
 example : "unstable-all" ∈ Gen.featureValues ∧ "stable-basic" ∈ Gen.featureValues := by decide
 
 end MdModel.Cli
